@@ -72,6 +72,12 @@ Proof. induction l1; cbn; congruence. Qed.
 Lemma set_nth_error {A} i (x : A) l : i < length l -> nth_error (set_nth i x l) i = Some x.
 Proof. revert i. induction l as [|y l IH]; intros [|i] H; cbn in *; try lia; auto. apply IH. lia. Qed.
 
+Lemma NoDup_app_l {A} (a b : list A) : NoDup (a ++ b) -> NoDup a.
+Proof.
+  induction a as [|x a IH]; cbn; intros H; [constructor|]. inversion H; subst. constructor; auto.
+  intros Hin. apply H2. apply in_or_app. now left.
+Qed.
+
 Lemma NoDup_map_filter {A B} (f : A -> B) p l : NoDup (map f l) -> NoDup (map f (filter p l)).
 Proof.
   induction l as [|x l IH]; cbn; intros H; [constructor|].
@@ -263,3 +269,237 @@ Qed.
 
 Lemma run_pinv fails producers cycles sched : PInv producers (run fails producers cycles sched).
 Proof. apply run_from_pinv, pinv_init. Qed.
+
+(* ------------------------------------------------------------------ cycles accounting *)
+Definition CInv (cycles : nat) (st : state) : Prop :=
+  cycle st + todo st + (match phase_ st with PIdle => 0 | _ => 1 end) = cycles.
+
+Lemma step_cinv fails cycles st t : CInv cycles st -> CInv cycles (step fails st t).
+Proof.
+  unfold CInv, step, step_gen. destruct t as [|i|c].
+  - destruct (phase_ st) eqn:E.
+    + destruct (todo st) eqn:Et; cbn [phase_ cycle todo]; rewrite ?E, ?Et; lia.
+    + cbn [phase_ cycle todo]. lia.
+    + cbn [phase_ cycle todo]. lia.
+    + destruct (reader st); cbn [phase_ cycle todo]; try rewrite E; lia.
+  - destruct (nth_error (prods st) i) as [[|m rest]|]; cbn [phase_ cycle todo]; auto.
+  - destruct (Nat.eqb c (cycle st)); auto.
+    destruct (reader st); auto.
+    cbn [andb]. destruct (queue st) as [|[m|] q]; auto.
+Qed.
+
+Lemma run_from_cinv fails cycles st sched : CInv cycles st -> CInv cycles (run_from fails st sched).
+Proof.
+  revert st. induction sched as [|t r IH]; intros st I; cbn; auto. apply IH. now apply step_cinv.
+Qed.
+
+Lemma run_cinv fails producers cycles sched : CInv cycles (run fails producers cycles sched).
+Proof. apply run_from_cinv. unfold CInv. cbn. lia. Qed.
+
+(* ------------------------------------------------------------------ C19_fifo *)
+Lemma fst_tag l : map fst (map tag l) = map fst l.
+Proof. rewrite map_map. apply map_ext. now intros []. Qed.
+
+Lemma held_nil st : alive (reader st) = false -> held st = [].
+Proof. unfold held. destruct (reader st); cbn; auto; discriminate. Qed.
+
+(* The destination's log is the sequence of messages in the order their puts took effect, minus exactly
+   the messages on which the destination raised, minus what is still pending (held by the reader, or
+   queued); nothing is invented, duplicated or reordered; every write happens on a reader thread. *)
+Theorem writer_fifo : forall fails producers cycles sched,
+  let st := run fails producers cycles sched in
+  let tr := trace st in
+  msgs (puts tr) = map fst (calls tr) ++ map fst (held st) ++ msgs (queue st)
+  /\ log st = map tag (filter (okf fails) (calls tr))
+  /\ (forall m t, In (m, t) (log st) -> (exists c, t = Reader c) /\ t <> Ctl /\ forall i, t <> Prod i)
+  /\ (forall i, put_by i tr ++ nth i (prods st) [] = nth i producers [])
+  /\ (NoDup (concat producers) -> NoDup (map fst (calls tr)) /\ NoDup (map fst (log st))).
+Proof.
+  intros fails producers cycles sched st tr.
+  pose proof (run_inv fails producers cycles sched) as [Hf Hc Hl Hp].
+  pose proof (run_pinv fails producers cycles sched) as (Hlen & Hby & Hperm).
+  fold st in Hf, Hc, Hl, Hp, Hlen, Hby, Hperm. fold tr in Hf, Hc, Hl, Hby, Hperm.
+  assert (H1 : msgs (puts tr) = map fst (calls tr) ++ map fst (held st) ++ msgs (queue st)).
+  { rewrite Hf, msgs_app. rewrite <- (attrib_fst (taken tr) 0), Hc, map_app. now rewrite app_assoc. }
+  split; [exact H1|]. split; [exact Hl|]. split; [|split; [exact Hby|]].
+  - intros m t Hin. rewrite Hl in Hin. apply in_map_iff in Hin as ([m' c] & E & _).
+    unfold tag in E. cbn in E. inversion E; subst. split; [now exists c|]. split; [discriminate|]. intros i; discriminate.
+  - intros Hnd.
+    assert (Hc' : NoDup (map fst (calls tr))).
+    { apply (Permutation_NoDup (Permutation_sym Hperm)) in Hnd.
+      apply NoDup_app_l in Hnd. rewrite H1 in Hnd. now apply NoDup_app_l in Hnd. }
+    split; [exact Hc'|]. rewrite Hl, fst_tag. now apply NoDup_map_filter.
+Qed.
+
+(* ------------------------------------------------------------------ C19_cycles *)
+(* [attrib l 0] pairs every message of a put sequence with the number of _STOPs put before it, i.e. with
+   the cycle whose reader must receive it.  At every moment the calls made so far (each by the reader of
+   its cycle), the message in the reader's hands and the queued messages are exactly that attribution:
+   a message put after the _STOP of cycle c by a racing producer stays queued behind that _STOP and is
+   the first thing the reader of cycle c+1 is handed.  Between cycles nothing is held, the queue holds
+   no sentinel, and the writer is neither running nor registered. *)
+Theorem writer_cycles : forall fails producers cycles sched,
+  let st := run fails producers cycles sched in
+  let tr := trace st in
+  attrib (puts tr) 0 = calls tr ++ held st ++ attrib (queue st) (count_stop (taken tr))
+  /\ (phase_ st = PIdle ->
+        count_stop (puts tr) = cycle st /\ count_stop (taken tr) = cycle st /\ count_stop (queue st) = 0 /\
+        held st = [] /\ attrib (puts tr) 0 = calls tr ++ map (fun m => (m, cycle st)) (msgs (queue st)))
+  /\ running st = (match phase_ st with PStarted => true | _ => false end)
+  /\ registered st = (match phase_ st with PStarted => true | _ => false end)
+  /\ cycle st + todo st + (match phase_ st with PIdle => 0 | _ => 1 end) = cycles.
+Proof.
+  intros fails producers cycles sched st tr.
+  pose proof (run_inv fails producers cycles sched) as [Hf Hc Hl Hp].
+  pose proof (run_cinv fails producers cycles sched) as Hcy.
+  fold st in Hf, Hc, Hl, Hp, Hcy. fold tr in Hf, Hc, Hl.
+  assert (H1 : attrib (puts tr) 0 = calls tr ++ held st ++ attrib (queue st) (count_stop (taken tr))).
+  { rewrite Hf, attrib_app, Hc. cbn. now rewrite app_assoc. }
+  split; [exact H1|]. unfold phase_ok in Hp. fold tr in Hp. split; [|split; [|split]].
+  - intros E. rewrite E in Hp. destruct Hp as (Hsp & Hsk & Hal & _).
+    assert (Hq : count_stop (queue st) = 0).
+    { apply (f_equal count_stop) in Hf. rewrite count_stop_app in Hf. lia. }
+    repeat split; auto.
+    + now apply held_nil.
+    + rewrite H1, (held_nil _ Hal), Hsk. cbn. now rewrite attrib_nostop.
+  - destruct (phase_ st); tauto.
+  - destruct (phase_ st); tauto.
+  - exact Hcy.
+Qed.
+
+(* ------------------------------------------------------------------ C19_stop_waits *)
+Lemma step_trace fails st t :
+  trace (step fails st t) = trace st \/
+  exists e, trace (step fails st t) = trace st ++ [e] /\
+            (forall c, e = EJoin c -> phase_ st = PJoining /\ reader st = RDone /\ cycle st = c).
+Proof.
+  unfold step, step_gen. destruct t as [|i|c].
+  - destruct (phase_ st) eqn:E.
+    + destruct (todo st); [now left|]. right. eexists. split; [reflexivity|]. discriminate.
+    + right. eexists. split; [reflexivity|]. discriminate.
+    + right. eexists. split; [reflexivity|]. discriminate.
+    + destruct (reader st); try (now left). right. eexists. split; [reflexivity|].
+      intros c H. inversion H. auto.
+  - destruct (nth_error (prods st) i) as [[|m rest]|]; try (now left).
+    right. eexists. split; [reflexivity|]. discriminate.
+  - destruct (Nat.eqb c (cycle st)); [|now left].
+    destruct (reader st); try (now left).
+    + cbn [andb]. destruct (queue st) as [|[m|] q]; [now left| |]; right; eexists; (split; [reflexivity|]); discriminate.
+    + right. eexists. split; [reflexivity|]. discriminate.
+Qed.
+
+Lemma in_puts t x p : In (EPut t x) p -> In x (puts p).
+Proof. intros H. unfold puts. apply in_flat_map. exists (EPut t x). split; auto. now left. Qed.
+
+Lemma in_msgs m l : In (Msg m) l -> In m (msgs l).
+Proof. intros H. unfold msgs. apply in_flat_map. exists (Msg m). split; auto. now left. Qed.
+
+(* If the controller's join of cycle c completed (event [EJoin c]) then, before that moment, c+1 sentinels
+   had been put and all of them had been consumed by the readers (so the reader of cycle c has returned),
+   and every message put before a sentinel put before the join — in particular before the _STOP of this
+   very stopService — had already been passed to the destination. *)
+Theorem writer_stop_waits : forall fails producers cycles sched t1 t2 c,
+  trace (run fails producers cycles sched) = t1 ++ EJoin c :: t2 ->
+  count_stop (puts t1) = S c /\ count_stop (taken t1) = S c
+  /\ (forall p q t, t1 = p ++ EPut t Stop :: q ->
+        forall t' m, In (EPut t' (Msg m)) p -> In m (map fst (calls t1))).
+Proof.
+  intros fails producers cycles sched. induction sched as [|x sched IH] using rev_ind; intros t1 t2 c H.
+  - cbn in H. destruct t1; discriminate.
+  - rewrite run_snoc in H. set (st := run fails producers cycles sched) in *.
+    destruct (step_trace fails st x) as [E|(e & E & Hj)]; rewrite E in H; [now apply (IH t1 t2 c)|].
+    apply snoc_split in H as [(-> & Ht & ->)|(t2' & -> & Ht)]; [|now apply (IH t1 t2' c)].
+    destruct (Hj c eq_refl) as (Hph & Hr & Hcy).
+    pose proof (run_inv fails producers cycles sched) as [Hf Hc _ Hp]. fold st in Hf, Hc, Hp.
+    unfold phase_ok in Hp. rewrite Hph, Hr, Ht, Hcy in Hp. rewrite Ht in Hf, Hc.
+    destruct Hp as (Hsp & _ & _ & [[_ Hal]|[Hsk _]]); [cbn in Hal; discriminate|].
+    split; [exact Hsp|]. split; [exact Hsk|].
+    intros p q t Et1 t' m Hin.
+    assert (Hq : count_stop (queue st) = 0).
+    { apply (f_equal count_stop) in Hf. rewrite count_stop_app in Hf. lia. }
+    pose proof Hf as Hf'. rewrite Et1 in Hf' at 1. rewrite puts_app in Hf'. cbn [puts flat_map app] in Hf'.
+    fold (puts q) in Hf'.
+    destruct (stop_in_prefix _ _ _ _ Hf' Hq) as [r Hr'].
+    rewrite <- (app_nil_r (calls t1)). replace (@nil (nat * nat)) with (held st) by (unfold held; now rewrite Hr).
+    rewrite <- Hc, attrib_fst, Hr', msgs_app. apply in_or_app. left.
+    apply in_msgs. eapply in_puts. exact Hin.
+Qed.
+
+(* ------------------------------------------------------------------ C19_fault_local *)
+Definition erase (e : event) : event := match e with ECall c m _ => ECall c m true | _ => e end.
+
+Definition same_but_log (fails : nat -> bool) (st st0 : state) : Prop :=
+  queue st = queue st0 /\ running st = running st0 /\ registered st = registered st0 /\ reader st = reader st0 /\
+  phase_ st = phase_ st0 /\ cycle st = cycle st0 /\ todo st = todo st0 /\ prods st = prods st0 /\
+  map erase (trace st) = map erase (trace st0) /\
+  log st = filter (fun x => negb (fails (fst x))) (log st0).
+
+Lemma step_same fails st st0 t :
+  same_but_log fails st st0 -> same_but_log fails (step fails st t) (step (fun _ => false) st0 t).
+Proof.
+  destruct st as [q rn rg rd ph cy td pr lg tr], st0 as [q0 rn0 rg0 rd0 ph0 cy0 td0 pr0 lg0 tr0].
+  unfold same_but_log. cbn. intros (-> & -> & -> & -> & -> & -> & -> & -> & Ht & ->).
+  unfold step, step_gen; cbn.
+  destruct t as [|i|c].
+  - destruct ph0.
+    + destruct td0; cbn; rewrite ?map_app, ?Ht; auto 12.
+    + cbn; rewrite ?map_app, ?Ht; auto 12.
+    + cbn; rewrite ?map_app, ?Ht; auto 12.
+    + destruct rd0; cbn; rewrite ?map_app, ?Ht; auto 12.
+  - destruct (nth_error pr0 i) as [[|m rest]|]; cbn; rewrite ?map_app, ?Ht; auto 12.
+  - destruct (Nat.eqb c cy0); cbn; auto 12.
+    destruct rd0; cbn; auto 12.
+    + destruct q0 as [|[m|] q0]; cbn; rewrite ?map_app, ?Ht; auto 12.
+    + rewrite ?map_app, ?Ht. cbn. repeat split; auto.
+      rewrite filter_app. cbn. destruct (fails m); cbn; [now rewrite app_nil_r | reflexivity].
+Qed.
+
+Lemma calls_erase tr : calls (map erase tr) = calls tr.
+Proof.
+  induction tr as [|e tr IH]; [reflexivity|]. cbn [map].
+  rewrite (calls_app [erase e] (map erase tr)), (calls_app [e] tr), IH. now destruct e.
+Qed.
+Lemma puts_erase tr : puts (map erase tr) = puts tr.
+Proof.
+  induction tr as [|e tr IH]; [reflexivity|]. cbn [map].
+  rewrite (puts_app [erase e] (map erase tr)), (puts_app [e] tr), IH. now destruct e.
+Qed.
+Lemma taken_erase tr : taken (map erase tr) = taken tr.
+Proof.
+  induction tr as [|e tr IH]; [reflexivity|]. cbn [map].
+  rewrite (taken_app [erase e] (map erase tr)), (taken_app [e] tr), IH. now destruct e.
+Qed.
+
+Lemma filter_all {A} (l : list A) : filter (fun _ => true) l = l.
+Proof. induction l; cbn; congruence. Qed.
+
+Lemma run_from_same fails st st0 sched :
+  same_but_log fails st st0 -> same_but_log fails (run_from fails st sched) (run_from (fun _ => false) st0 sched).
+Proof.
+  revert st st0. induction sched as [|t r IH]; intros st st0 H; cbn; auto. apply IH. now apply step_same.
+Qed.
+
+(* Same producers, cycles and schedule, with and without destination failures: the two runs are in the
+   same state at every moment (queue, reader state — the reader goes on exactly as if nothing had
+   happened —, controller, the destination is called with the same messages in the same order) and the
+   log of the failing run is the log of the failure-free run minus exactly the messages that failed. *)
+Theorem writer_fault_local : forall fails producers cycles sched,
+  let st := run fails producers cycles sched in
+  let st0 := run (fun _ => false) producers cycles sched in
+  queue st = queue st0 /\ reader st = reader st0 /\ phase_ st = phase_ st0 /\ cycle st = cycle st0 /\
+  todo st = todo st0 /\ prods st = prods st0
+  /\ calls (trace st) = calls (trace st0) /\ puts (trace st) = puts (trace st0) /\ taken (trace st) = taken (trace st0)
+  /\ log st0 = map tag (calls (trace st0))
+  /\ log st = filter (fun x => negb (fails (fst x))) (log st0).
+Proof.
+  intros fails producers cycles sched st st0.
+  assert (H : same_but_log fails st st0).
+  { unfold st, st0, run. apply run_from_same. unfold same_but_log. cbn. repeat split; auto. }
+  destruct H as (Hq & _ & _ & Hr & Hph & Hcy & Htd & Hpr & Htr & Hlg).
+  repeat split; auto.
+  - now rewrite <- (calls_erase (trace st)), Htr, calls_erase.
+  - now rewrite <- (puts_erase (trace st)), Htr, puts_erase.
+  - now rewrite <- (taken_erase (trace st)), Htr, taken_erase.
+  - pose proof (run_inv (fun _ => false) producers cycles sched) as [_ _ Hl _]. fold st0 in Hl.
+    rewrite Hl. f_equal. apply filter_all.
+Qed.
